@@ -47,20 +47,25 @@ RootTriangle(p, a, b, c) ==
       [] p = 2 -> (a - b - c <= 0) \/ ((a - b - c) * (a - b - c) <= 4 * b * c)
       [] OTHER -> TRUE       \* Minkowski-3: not decidable in 32-bit integers; see C17
 
-MetricAxioms ==
-    \A m \in Metrics : \A q \in Queries : \A i, j \in 1..Len(cells) :
-        LET kqi == Key(m[1], m[2], q, Data[i])
-            kqj == Key(m[1], m[2], q, Data[j])
-            kij == Key(m[1], m[2], Data[i], Data[j])
-        IN  /\ kqi = Key(m[1], m[2], Data[i], q)
-            /\ (kqi = 0) = (q = Data[i])
-            /\ kqi >= 0
-            /\ RootTriangle(IF m[1] = "ham" THEN 1 ELSE m[2], kqi, kqj, kij)
+(* D is passed as an argument so that TLC builds the point sequence once per state *)
+AllNearSetsAccepted(keys) ==
+    \A k \in 1..Len(keys) : \A S \in NearSets(keys, k) : IsKnn(keys, k, AsRes(keys, S))
 
-ReferenceAccepted ==
+MetricAxiomsOn(D) ==
+    \A m \in Metrics : \A q \in Queries : \A i \in 1..Len(D) :
+        LET kqi == Key(m[1], m[2], q, D[i]) IN
+        /\ kqi = Key(m[1], m[2], D[i], q)
+        /\ (kqi = 0) = (q = D[i])
+        /\ kqi >= 0
+        /\ \A j \in i..Len(D) :
+              RootTriangle(IF m[1] = "ham" THEN 1 ELSE m[2], kqi,
+                           Key(m[1], m[2], q, D[j]), Key(m[1], m[2], D[i], D[j]))
+MetricAxioms == MetricAxiomsOn(Data)
+
+ReferenceAcceptedOn(D) ==
     \A m \in Metrics : \A q \in Queries :
-        LET keys == Keys(m[1], m[2], Data, q) IN
-        \A k \in 1..Len(cells) : \A S \in NearSets(keys, k) : IsKnn(keys, k, AsRes(keys, S))
+        AllNearSetsAccepted(Keys(m[1], m[2], D, q))
+ReferenceAccepted == ReferenceAcceptedOn(Data)
 
 LatticeOK == pc = "chk" => (MetricAxioms /\ ReferenceAccepted)
 
